@@ -531,7 +531,7 @@ struct Shrinker
 		if (used >= budget || now_s() > deadline) return false;
 		++used;
 		ChildResult r = run_in_child(cand, "shrink", 60);
-		return r.violated && r.vclass == cls;
+		return r.violated && eng->same_failure(r.vclass, cls);
 	}
 
 	template <class V, class Get>
@@ -949,7 +949,7 @@ int cmd_check(Args const& a)
 			exit_code = 2;
 			continue;
 		}
-		if (!c0.violated || c0.vclass != v.cls)
+		if (!c0.violated || !e->same_failure(c0.vclass, v.cls))
 		{
 			std::printf("HARNESS-ERROR: irreproducible violation run=%lld class=%s (fresh process gave %s)\n"
 				, (long long)v.run, v.cls.c_str(), c0.violated ? c0.vclass.c_str() : "ok");
@@ -967,7 +967,8 @@ int cmd_check(Args const& a)
 		// gate: two fresh replays must agree
 		ChildResult r1 = run_in_child(small, "gate1", b.hang_s);
 		ChildResult r2 = run_in_child(small, "gate2", b.hang_s);
-		if (!(r1.violated && r2.violated && r1.vclass == v.cls && r2.vclass == v.cls && r1.trace_hash == r2.trace_hash))
+		if (!(r1.violated && r2.violated && e->same_failure(r1.vclass, v.cls) && e->same_failure(r2.vclass, v.cls)
+			&& (r1.trace_hash == r2.trace_hash || !e->gate_on_trace_hash())))
 		{
 			std::printf("HARNESS-ERROR: minimised replay not reproducible class=%s (%s/%s)\n", v.cls.c_str()
 				, r1.vclass.c_str(), r2.vclass.c_str());
